@@ -18,6 +18,20 @@ import (
 type shCfg struct {
 	Image   ImgSpec `json:"image"`
 	Instant string  `json:"instant"`
+	// Foreign: before the history starts the (unsigned) image is signed the way another tool signs it: SignedData with
+	// extra authenticated attributes, the blob optionally zero-padded to 8 bytes with the padding counted in dwLength
+	// (osslsigncode), or followed by alignment filler that is not zero.
+	Foreign *shForeign `json:"foreign,omitempty"`
+	// Other: a second, different image that is parsed before the history starts and stays alive beside it; what the
+	// history does to the first image must not show on the second one.
+	Other *PESpec `json:"other,omitempty"`
+}
+
+type shForeign struct {
+	Key      int  `json:"key"`
+	Extra    int  `json:"extra_attrs"`
+	PadInLen bool `json:"pad_counted_in_dwlength,omitempty"`
+	Filler   bool `json:"nonzero_filler,omitempty"`
 }
 
 type shOp struct {
@@ -51,6 +65,16 @@ func (e *signhistEngine) Gen(seed uint64, tier string, run int) *Trace {
 	}
 	t, _ := genInstant(r)
 	c.Instant = t.Format(time.RFC3339)
+	if fr := r.Fork("foreign"); c.Image.Gen != nil && fr.Chance(1, 7) {
+		c.Foreign = &shForeign{Key: Pick(fr, []int{0, 1, 8, 21, 22, 23}), Extra: fr.Intn(4), PadInLen: fr.Chance(1, 3)}
+		c.Foreign.Filler = !c.Foreign.PadInLen && fr.Chance(1, 2)
+	}
+	if or := r.Fork("other"); or.Chance(1, 5) {
+		c.Other = genPESpec(or)
+		if or.Bool() && c.Other.Trailing == 0 {
+			c.Other.Trailing = or.Range(1, 7) // a size that is not a multiple of 8 more often
+		}
+	}
 	// swarm: key subset of this run (keeps collisions and repeats frequent)
 	var keys []int
 	switch r.Intn(8) {
@@ -133,14 +157,50 @@ type shState struct {
 	dirOff   int
 	refHash  []byte // specification digest of the padded original
 	signers  []int
+	nForeign int      // the first nForeign entries were written by another tool (known signer, foreign encoding)
 	entries  [][]byte // raw bytes of the table entries seen after the previous step
 }
 
 func shExec(c shCfg, ops []shOp, x *X) {
 	orig := c.Image.Bytes()
+	if c.Foreign != nil {
+		orig = shForeignSigned(orig, *c.Foreign)
+		x.Probe("start_signed_by_another_tool")
+	}
 	pe0, ents0, err := refPECertTable(orig)
 	if err != nil {
 		harnessf("signhist: input image %s is not well-formed for the reference reader: %v", c.Image.String(), err)
+	}
+	// the bystander
+	var other *authenticode.PECOFFBinary
+	var otherHash, otherBytes []byte
+	if c.Other != nil {
+		ob := buildPE(c.Other)
+		other, err = authenticode.Parse(&SimReader{data: ob})
+		if err != nil {
+			x.Fail("signhist.parse_well_formed", -1, "Parse", "well-formed image (the second one of this run) rejected: %v", err)
+			return
+		}
+		otherHash, otherBytes = other.Hash(crypto.SHA256), other.Bytes()
+		if ref, err := refPEDigest(ob, true); err != nil || !bytes.Equal(ref, otherHash) {
+			x.Fail("signhist.hash_constant", -1, "Parse", "second image of the run: Hash() = %x, specification digest = %x (%v)", otherHash, ref, err)
+			return
+		}
+		x.Probe("second_image_alive")
+	}
+	bystander := func(i int, kind string) bool {
+		if other == nil {
+			return true
+		}
+		if h := other.Hash(crypto.SHA256); !bytes.Equal(h, otherHash) {
+			x.Fail("signhist.other_image_untouched", i, kind, "a second image parsed before the history began now hashes to %x, before to %x; nothing was done to it", h, otherHash)
+			return false
+		}
+		if b := other.Bytes(); !bytes.Equal(b, otherBytes) {
+			x.Fail("signhist.other_image_untouched", i, kind, "a second image parsed before the history began now serialises to %s, before to %s; nothing was done to it", shortHex(b), shortHex(otherBytes))
+			return false
+		}
+		return true
 	}
 	st := &shState{orig: orig, dirOff: pe0.CertDirOff}
 	st.origData = orig[:len(orig)-int(pe0.CertSize)]
@@ -150,6 +210,11 @@ func shExec(c shCfg, ops []shOp, x *X) {
 	}
 	for range ents0 {
 		st.signers = append(st.signers, -1)
+	}
+	if c.Foreign != nil && len(ents0) == 1 {
+		// the harness knows who signed the way another tool does
+		st.signers[0] = c.Foreign.Key % poolSize
+		st.nForeign = 1
 	}
 	x.Logf("image %s: %d bytes, %d sections, pe32+=%v, %d existing signature(s), len%%8=%d", c.Image.String(), len(orig), len(pe0.Sections), pe0.PE32Plus, len(ents0), len(orig)%8)
 	if len(orig)%8 != 0 {
@@ -260,6 +325,9 @@ func shExec(c shCfg, ops []shOp, x *X) {
 		if !shCheck(x, i, op.Op, st, bin) {
 			return
 		}
+		if !bystander(i, op.Op) {
+			return
+		}
 		x.State(h64(fmt.Sprint(st.signers), len(orig)%8))
 	}
 	x.Nontriv = nsign >= 1 && reparsedAfterSign
@@ -366,7 +434,17 @@ func shCheck(x *X, i int, kind string, st *shState, bin *authenticode.PECOFFBina
 			return fail("signhist.earlier_entries_kept", "entry %d changed after a later operation", k)
 		}
 		// (4) each blob is a SignedData over SpcIndirectDataContent carrying the digest of THIS file
-		cms, err := refCMSParse(en.Blob)
+		blob := en.Blob
+		if st.signers[k] < 0 || k < st.nForeign {
+			// other tools pad the blob to 8 bytes and count the padding in dwLength
+			for n := 0; n < 7 && len(blob) > 0 && blob[len(blob)-1] == 0; n++ {
+				if _, err := refCMSParse(blob); err == nil {
+					break
+				}
+				blob = blob[:len(blob)-1]
+			}
+		}
+		cms, err := refCMSParse(blob)
 		if err != nil {
 			return fail("signhist.entry_is_pkcs7", "entry %d (dwLength %d): %v", k, en.Length, err)
 		}
@@ -412,4 +490,53 @@ func shCheck(x *X, i int, kind string, st *shState, bin *authenticode.PECOFFBina
 		}
 	}
 	return true
+}
+
+// shForeignSigned signs an unsigned image the way another tool does: the library's own SpcIndirectDataContent (it carries
+// the digest) re-signed by refCMSForeign with extra authenticated attributes, wrapped in a WIN_CERTIFICATE and appended
+// behind the image data padded to 8 bytes; the directory entry is set by hand.
+func shForeignSigned(orig []byte, f shForeign) []byte {
+	pe0, ents0, err := refPECertTable(orig)
+	if err != nil || len(ents0) != 0 {
+		harnessf("signhist: foreign signing wants an unsigned well-formed image: %v", err)
+	}
+	pk := Pool()[f.Key%poolSize]
+	bin, err := authenticode.Parse(bytes.NewReader(orig))
+	if err != nil {
+		harnessf("signhist: foreign signing: parse: %v", err)
+	}
+	lib, err := bin.Sign(pk.Key, pk.Cert)
+	if err != nil {
+		harnessf("signhist: foreign signing: %v", err)
+	}
+	like, err := refCMSParse(lib)
+	if err != nil {
+		harnessf("signhist: foreign signing: reference parse of the library's SignedData: %v", err)
+	}
+	blob := refCMSForeign(like, nil, pk, time.Now().UTC(), refForeignAttrs(f.Extra%4))
+	data := append([]byte(nil), orig...)
+	for len(data)%8 != 0 {
+		data = append(data, 0)
+	}
+	body := append([]byte(nil), blob...)
+	if f.PadInLen {
+		for (8+len(body))%8 != 0 {
+			body = append(body, 0)
+		}
+	}
+	entry := binary.LittleEndian.AppendUint32(nil, uint32(8+len(body)))
+	entry = binary.LittleEndian.AppendUint16(entry, 0x0200)
+	entry = binary.LittleEndian.AppendUint16(entry, 0x0002)
+	entry = append(entry, body...)
+	for len(entry)%8 != 0 {
+		if f.Filler {
+			entry = append(entry, 0xA5)
+		} else {
+			entry = append(entry, 0)
+		}
+	}
+	out := append(data, entry...)
+	binary.LittleEndian.PutUint32(out[pe0.CertDirOff:], uint32(len(data)))
+	binary.LittleEndian.PutUint32(out[pe0.CertDirOff+4:], uint32(len(entry)))
+	return out
 }
